@@ -268,7 +268,38 @@ def corpus():
     yield Case('n 2', ['add 0 p', 'add 1 p', 'edge 0 1', 'all 0,3 -', 'sub 0 0,3 -', 'info'], tags=('corpus', 'no-root'))
 
 
+def scale():
+    """cases beyond the sizes the random generator reaches: long chains and wide fans (depth / breadth past 2^8), ids
+    past 2^32 that collide in their low 32 bits and are told apart only through the data index"""
+    for n, bad in ((300, 280), (300, 256), (300, 257), (600, 599)):
+        ops = ['root 0 p'] + [f'add {i} p' for i in range(1, n)] + [f'edge {i} {i + 1}' for i in range(n - 1)]
+        good = [3 * i for i in range(n)]
+        d = list(good); d[bad] += 1
+        e = list(good); e[bad] += 2
+        ops += [f'all {data_str(good)} -', f'all {data_str(d)} -', f'all {data_str(e)} -', f'sub {bad - 3} {data_str(d)} -',
+                f'sub {bad + 1 if bad + 1 < n else 0} {data_str(d)} -']
+        yield Case(f'n {n}', ops, tags=('scale', 'scale:chain'))
+    n = 300                                            # fan: root -> 299 children, one false / one error among them
+    ops = ['root 0 p'] + [f'add {i} p' for i in range(1, n)] + [f'edge 0 {i}' for i in range(1, n)]
+    for bad, delta in ((290, 1), (257, 2), (1, 1)):
+        d = [3 * i for i in range(n)]; d[bad] += delta
+        ops.append(f'all {data_str(d)} -')
+    yield Case(f'n {n}', ops, tags=('scale', 'scale:fan'))
+    big = 2 ** 32
+    ids = [5, big + 5, 7, big + 7, 2 ** 63 + 5, 6]     # low 32 bits collide pairwise; verdicts differ
+    ops = [f"{'root' if i == 0 else 'add'} {v} p" for i, v in enumerate(ids)] + [f'edge {i} {i + 1}' for i in range(5)]
+    ix = {v: k for k, v in enumerate(ids)}
+    for bad in range(6):
+        d = [3 * k for k in range(6)]; d[bad] += 1
+        ops.append(f'all {data_str(d)} {idx_str(ix)}')
+        ops.append(f'sub 1 {data_str(d)} {idx_str(ix)}')
+    ix2 = {v: 5 - k for k, v in enumerate(ids)}
+    ops.append(f'all 0,3,6,9,13,15 {idx_str(ix2)}')
+    yield Case('n 6', ops, tags=('scale', 'scale:wide-ids'))
+
+
 def generate(rng, tier):
+    yield from scale()
     if tier == 'quick':
         ncases, nmax, kmax = 800, 12, 3
     else:
